@@ -98,6 +98,11 @@ func c14Race(run *core.Run) {
 		run.Report("C14:data-race", "the race detector reports a data race between readers and the inserting goroutine: "+firstFrames(s[i:]), map[string]interface{}{"kind": "race-stress", "seconds": secs})
 	case strings.Contains(s, "READER-PANIC"):
 		run.Report("C14:reader-panics", "a reader panicked while the writer was inserting: "+tail(s, 400), nil)
+	case strings.Contains(s, "WRITER-ERROR"):
+		// the writer only performs honest operations (gossip, delivery of honestly produced momentums, adoption of a longer honest
+		// branch, rollback): a refusal is the node's pool or store being inconsistent after what went before
+		i := strings.Index(s, "WRITER-ERROR")
+		run.Report("C14:honest-insert-or-rollback-refused-in-the-stress-cycle", "the node refuses an honest operation of the stress cycle (gossip / sync / reorganisation / rollback, repeated): "+tail(s[i:], 300), map[string]interface{}{"kind": "race-stress", "seconds": secs})
 	case strings.Contains(s, "RACE-STRESS-OK"):
 		run.Set("race_stress", strings.TrimSpace(s[strings.Index(s, "RACE-STRESS-OK"):]))
 		run.Traces++
